@@ -27,6 +27,7 @@ import (
 	"github.com/goplus/xgo/parser"
 	"github.com/goplus/xgo/parser/fsx/memfs"
 	"github.com/goplus/xgo/token"
+	"github.com/goplus/xgo/x/build"
 
 	"verif/engine"
 	"verif/engine/vmap"
@@ -91,6 +92,15 @@ func compile(p Pkg, listing []string) (res string) {
 		files[filepath.Join(dir, n)] = s
 	}
 	fs := memfs.New(map[string][]string{dir: listing}, files)
+	if strings.HasPrefix(p.Name, "xbuild-") {
+		// the build helper's own path: it also chooses which package of the directory is compiled
+		bctx := build.NewContext(imp, fset)
+		out, err := bctx.BuildFSDir(fs, dir)
+		if err != nil {
+			return "XBUILD ERRORS:\n" + err.Error()
+		}
+		return "XBUILD\n" + string(out)
+	}
 	pkgs, err := parser.ParseFSDir(fset, fs, dir, parser.Config{ClassKind: classKind, Mode: parser.ParseComments})
 	if err != nil {
 		return "PARSE-ERROR:\n" + err.Error()
